@@ -108,3 +108,49 @@ func Scan(db *leveldb.DB) (map[string][]byte, error) {
 	}
 	return m, it.Error()
 }
+
+// GenBigJournalWorkload: write buffers of 64-256 KiB so that one journal file spans several 32 KiB blocks, batches of
+// many records (5-60 KiB of payload, mostly unsynced) so that journal records are split into first/middle/last chunks
+// across block boundaries, an occasional synced write so that the unsynced tail starts at varying offsets.
+func GenBigJournalWorkload(r *vlib.RNG, nsteps int) *Workload {
+	cfg := dbh.RandomCfg(r)
+	cfg.MaxManifest = int64([]int{0, 0, 512}[r.Intn(3)])
+	cfg.NoSync = false
+	cfg.WriteBuffer = []int{65536, 131072, 262144}[r.Intn(3)]
+	pool := dbh.GenPool(r, r.Range(20, 60), false)
+	w := &Workload{Cfg: cfg}
+	var tag uint64
+	mkrecs := func(n int) []dbh.Rec {
+		var recs []dbh.Rec
+		for i := 0; i < n; i++ {
+			k := pool[r.Intn(len(pool))]
+			tag++
+			if r.Chance(1, 8) {
+				recs = append(recs, dbh.Rec{Del: true, K: k})
+				continue
+			}
+			v := dbh.GenValue(r, cfg, k, tag)
+			want := r.Range(200, 2500)
+			for len(v) < want {
+				v = append(v, byte('a'+len(v)%23))
+			}
+			recs = append(recs, dbh.Rec{K: k, V: v[:want]})
+		}
+		return recs
+	}
+	for len(w.Steps) < nsteps {
+		switch r.Pick(30, 30, 3, 2, 2) {
+		case 0:
+			w.Steps = append(w.Steps, Step{Kind: "write", Recs: mkrecs(r.Range(1, 4)), Sync: r.Chance(1, 4)})
+		case 1: // a batch of 5-60 KiB: crosses at least one block boundary more often than not
+			w.Steps = append(w.Steps, Step{Kind: "write", Recs: mkrecs(r.Range(4, 40)), Sync: r.Chance(1, 6)})
+		case 2:
+			w.Steps = append(w.Steps, Step{Kind: "txn", Recs: mkrecs(r.Range(1, 20)), Parts: r.Range(1, 3)})
+		case 3:
+			w.Steps = append(w.Steps, Step{Kind: "reopen"})
+		case 4:
+			w.Steps = append(w.Steps, Step{Kind: "idle"})
+		}
+	}
+	return w
+}
